@@ -1599,12 +1599,19 @@ func c01(r *core.Run) {
 		// the code compared is the one the wrapped writer recorded for this request
 		wh := p.Func("api/internal/response", "WithCodeResponseWriter", "WriteHeader")
 		if o.Need(wh != nil, "response.WithCodeResponseWriter.WriteHeader") {
-			sts := core.StoresToField(wh, "WithCodeResponseWriter.Code")
+			// the stores of WriteHeader and of the function literals it creates (a deferred closure may do
+			// the recording); the value recorded is the status parameter as any of them sees it – the
+			// parameter, the cell it is spilled to when a literal captures it, a literal's own parameter
+			// bound to it at the one place the literal is called (c01ValueOfParam)
+			var sts []*ssa.Store
+			for _, g := range c01ClosureFamily(wh) {
+				sts = append(sts, core.StoresToField(g, "WithCodeResponseWriter.Code")...)
+			}
 			if len(sts) == 0 {
 				o.Fail(p.Pos(wh.Pos()), "WriteHeader does not record the status code")
 			}
 			for _, st := range sts {
-				if len(wh.Params) < 2 || !isValueOf(wh.Params[1])(st.Val) {
+				if len(wh.Params) < 2 || !c01ValueOfParam(wh, wh.Params[1])(st.Val) {
 					o.Fail(p.InstrPos(st), "WriteHeader records %s, not the status it was given", core.Describe(st.Val))
 				}
 			}
